@@ -307,6 +307,10 @@ enum Fam {
     NullDatum,
     Tappath,
     TotalFee,
+    /// `check_lock_height` / `check_lock_time`: a 32-bit number, the jet succeeds or fails
+    Check32,
+    /// `check_lock_distance` / `check_lock_duration`: a 16-bit number
+    Check16,
     /// a digest jet without argument (Lean `Env.jetD (.nullary ..)`)
     Digest,
     /// a digest jet with an input index
@@ -320,6 +324,7 @@ enum Arg {
     None,
     U32(u32),
     U8(u8),
+    U16(u16),
     H([u8; 32]),
     Pair(u32, u32),
 }
@@ -328,6 +333,7 @@ fn arg_txt(a: &Arg) -> String {
         Arg::None => String::new(),
         Arg::U32(i) => i.to_string(),
         Arg::U8(i) => i.to_string(),
+        Arg::U16(i) => i.to_string(),
         Arg::H(h) => hex(h),
         Arg::Pair(i, j) => format!("{}:{}", i, j),
     }
@@ -347,6 +353,12 @@ const JETS: &[(&str, Elements, Fam, &str)] = &[
     ("tx_is_final", Elements::TxIsFinal, Fam::Nullary, ""),
     ("tx_lock_height", Elements::TxLockHeight, Fam::Nullary, ""),
     ("tx_lock_time", Elements::TxLockTime, Fam::Nullary, ""),
+    ("tx_lock_distance", Elements::BrokenDoNotUseTxLockDistance, Fam::Nullary, ""),
+    ("tx_lock_duration", Elements::BrokenDoNotUseTxLockDuration, Fam::Nullary, ""),
+    ("check_lock_height", Elements::CheckLockHeight, Fam::Check32, ""),
+    ("check_lock_time", Elements::CheckLockTime, Fam::Check32, ""),
+    ("check_lock_distance", Elements::BrokenDoNotUseCheckLockDistance, Fam::Check16, ""),
+    ("check_lock_duration", Elements::BrokenDoNotUseCheckLockDuration, Fam::Check16, ""),
     ("current_pegin", Elements::CurrentPegin, Fam::Current, "pegin"),
     ("current_prev_outpoint", Elements::CurrentPrevOutpoint, Fam::Current, "prev_outpoint"),
     ("current_asset", Elements::CurrentAsset, Fam::Current, "asset"),
@@ -427,7 +439,8 @@ fn jet_by_name(n: &str) -> Option<&'static (&'static str, Elements, Fam, &'stati
 
 fn arg_parse(f: Fam, s: &str) -> Option<Arg> {
     match f {
-        Fam::Input | Fam::Output | Fam::DigestIn | Fam::DigestOut => Some(Arg::U32(s.parse().ok()?)),
+        Fam::Input | Fam::Output | Fam::DigestIn | Fam::DigestOut | Fam::Check32 => Some(Arg::U32(s.parse().ok()?)),
+        Fam::Check16 => Some(Arg::U16(s.parse().ok()?)),
         Fam::Tappath => Some(Arg::U8(s.parse().ok()?)),
         Fam::TotalFee => Some(Arg::H(unhex32(s)?)),
         Fam::NullDatum => {
@@ -682,9 +695,45 @@ fn shown_inputs(m: &MEnv) -> usize {
 }
 
 /// `None` = the jet fails
+fn u16b(x: u16) -> Vec<bool> {
+    (0..16).rev().map(|k| (x >> k) & 1 == 1).collect()
+}
+
+/// the locks the supplied data imply (BIP 65 absolute, BIP 68 relative), as (height, time, distance,
+/// duration): an absolute lock counts only when some input is not final; a relative lock only in
+/// transactions of version >= 2, on inputs whose sequence has bit 31 clear, bit 22 choosing the kind
+fn locks(m: &MEnv) -> (u32, u32, u16, u16) {
+    let nin = shown_inputs(m);
+    let fin = m.inputs[..nin].iter().all(|i| i.seq == u32::MAX);
+    let height = if !fin && m.lock_time < 500_000_000 { m.lock_time } else { 0 };
+    let time = if !fin && m.lock_time >= 500_000_000 { m.lock_time } else { 0 };
+    let rel = |dur: bool| -> u16 {
+        if m.version < 2 {
+            return 0;
+        }
+        m.inputs[..nin]
+            .iter()
+            .filter(|i| i.seq >> 31 == 0 && ((i.seq >> 22) & 1 == 1) == dur)
+            .map(|i| (i.seq % 65536) as u16)
+            .max()
+            .unwrap_or(0)
+    };
+    (height, time, rel(false), rel(true))
+}
+
 fn expect(m: &MEnv, name: &str, fam: Fam, g: &str, arg: &Arg) -> Option<Vec<bool>> {
     let nin = shown_inputs(m);
     match (fam, arg) {
+        (Fam::Check32, Arg::U32(x)) => {
+            let l = locks(m);
+            let bound = if name == "check_lock_height" { l.0 } else { l.1 };
+            (*x <= bound).then(Vec::new)
+        }
+        (Fam::Check16, Arg::U16(x)) => {
+            let l = locks(m);
+            let bound = if name == "check_lock_distance" { l.2 } else { l.3 };
+            (*x <= bound).then(Vec::new)
+        }
         (Fam::Nullary, _) => Some(match name {
             "version" => u32b(m.version),
             "lock_time" => u32b(m.lock_time),
@@ -704,6 +753,8 @@ fn expect(m: &MEnv, name: &str, fam: Fam, g: &str, arg: &Arg) -> Option<Vec<bool
                 let fin = m.inputs[..nin].iter().all(|i| i.seq == u32::MAX);
                 u32b(if !fin && m.lock_time >= 500_000_000 { m.lock_time } else { 0 })
             }
+            "tx_lock_distance" => u16b(locks(m).2),
+            "tx_lock_duration" => u16b(locks(m).3),
             _ => unreachable!(),
         }),
         (Fam::Current, _) => {
@@ -1109,6 +1160,7 @@ fn run_jet(env: &ElementsEnv<Arc<elements::Transaction>>, jet: Elements, arg: &A
         Arg::None => None,
         Arg::U32(i) => Some(Word::u32(*i)),
         Arg::U8(i) => Some(Word::u8(*i)),
+        Arg::U16(i) => Some(Word::u16(*i)),
         Arg::H(h) => Some(Word::u256(*h)),
         Arg::Pair(i, j) => Some(Word::u64((u64::from(*i) << 32) | u64::from(*j))),
     };
@@ -1800,6 +1852,25 @@ fn all_queries(r: &mut Rng, m: &MEnv) -> Vec<Vec<Query>> {
                 }
                 g_misc.push((name.to_string(), a));
             }
+            Fam::Check32 => {
+                let l = locks(m);
+                let v = if name == "check_lock_height" { l.0 } else { l.1 };
+                let mut a: Vec<u32> = vec![0, 1, v.saturating_sub(1), v, v.saturating_add(1), 499_999_999, 500_000_000, m.lock_time, u32::MAX, m.lock_time.rotate_left(7) ^ m.version];
+                a.sort();
+                a.dedup();
+                first.push((name.to_string(), a.into_iter().map(Arg::U32).collect()));
+            }
+            Fam::Check16 => {
+                let l = locks(m);
+                let v = if name == "check_lock_distance" { l.2 } else { l.3 };
+                let mut a: Vec<u16> = vec![0, 1, v.saturating_sub(1), v, v.saturating_add(1), u16::MAX, (m.lock_time >> 3) as u16];
+                for i in &m.inputs {
+                    a.push(i.seq as u16);
+                }
+                a.sort();
+                a.dedup();
+                first.push((name.to_string(), a.into_iter().map(Arg::U16).collect()));
+            }
             Fam::Tappath => {
                 let n = m.path.len() as u32;
                 let mut a: Vec<u32> = vec![0, 1, n.saturating_sub(1), n, n + 1, 127, 128, 255];
@@ -1877,6 +1948,8 @@ fn reach_kinds(ctx: &mut Ctx, m: &MEnv) {
         }
         if i.seq >> 31 == 1 {
             k.push("sequence-top-bit".into());
+        } else {
+            k.push(format!("relative-lock-{}-v{}", if (i.seq >> 22) & 1 == 1 { "duration" } else { "distance" }, m.version.min(2)));
         }
         if i.vout >> 30 != 0 {
             k.push("vout-top-bits".into());
